@@ -436,7 +436,9 @@ class Verifier:
         """prove goal under the current path condition"""
         res = self.cur_result
         cx = ctx()
-        key = (name, tuple(t[0] for t in cx.trace))
+        occ = cx.ghost.setdefault("check_occurrence", {})
+        occ[name] = occ.get(name, 0) + 1
+        key = (name, occ[name], tuple(t[0] for t in cx.trace))
         if key in self._seen:
             return
         self._seen.add(key)
